@@ -1,7 +1,7 @@
 """Per-property configuration of ./check: Lean modules, correspondence streams, oracles, and the
 texts that go into MANIFEST.json (regenerate with ./mkmanifest.py)."""
 
-HOOK_COMMITS = ["42d3529", "6304aea", "b625c0d", "ec24054", "b4e8b86"]
+HOOK_COMMITS = ["42d3529", "6304aea", "b625c0d", "ec24054", "b4e8b86", "70718ab"]
 NOT_APPLICABLE = {}
 
 PROPS = {
